@@ -9,6 +9,7 @@ explicit whitespace `Text` and comments are items. It is what tree-sitter delive
                   | `(` items closeGap `)`            (comments and exactly one expression)
                   | expr (gap comment)* gap expr      (function application)
                   | (`with` | `assert`) (gap comment)* gap expr (gap comment)* gap `;` (gap comment)* gap expr
+                  | expr gap operator gap expr      (binary operator)
                   | (`!` | `-`) (gap comment)* gap expr      (unary operator)
                   | name (gap comment)* gap `:` gap expr      (lambda with an identifier argument)
                   | expr (gap comment)* gap `.` gap name (`.` name)* [(gap comment)* gap `or` gap expr]      (select)
@@ -58,6 +59,8 @@ inductive Cst where
   | lam (name : Text) (c1 : GC) (g1 : Text) (c2 : GC) (g2 : Text) (body : Cst)
   /-- operator c g operand — `unary_expression` (`!`, `-`) -/
   | un (op : Text) (c : GC) (g : Text) (e : Cst)
+  /-- left c1 g1 operator c2 g2 right — `binary_expression` -/
+  | bin (l : Cst) (c1 : GC) (g1 : Text) (op : Text) (c2 : GC) (g2 : Text) (r : Cst)
 inductive Items where
   | nil
   /-- gap, comment token -/
@@ -101,6 +104,7 @@ def Cst.flatten : Cst → Text
     e.flatten ++ flattenGC c1 ++ g1 ++ '.' :: gd ++ attrText attrs ++ flattenGC c2 ++ g2 ++ ['o', 'r'] ++ g3 ++ d.flatten
   | .lam n c1 g1 c2 g2 b => n ++ flattenGC c1 ++ g1 ++ ':' :: flattenGC c2 ++ g2 ++ b.flatten
   | .un op c g e => op ++ flattenGC c ++ g ++ e.flatten
+  | .bin l c1 g1 op c2 g2 r => l.flatten ++ flattenGC c1 ++ g1 ++ op ++ flattenGC c2 ++ g2 ++ r.flatten
 def Items.flatten : Items → Text
   | .nil => []
   | .cmt g t rest => g ++ t ++ rest.flatten
@@ -154,6 +158,7 @@ def Cst.lex : Cst → List Lex
   | .selOr e c1 _ _ attrs c2 _ _ d => e.lex ++ lexGC c1 ++ attrLex attrs ++ lexGC c2 ++ .tok ['o', 'r'] :: d.lex
   | .lam n c1 _ c2 _ b => .tok n :: lexGC c1 ++ .tok [':'] :: lexGC c2 ++ b.lex
   | .un op c _ e => .tok op :: lexGC c ++ e.lex
+  | .bin l c1 _ op c2 _ r => l.lex ++ lexGC c1 ++ .tok op :: lexGC c2 ++ r.lex
 def Items.lex : Items → List Lex
   | .nil => []
   | .cmt _ t rest => .cmt t :: rest.lex
@@ -258,6 +263,13 @@ def lamNameOk (n : Text) : Bool := !n.isEmpty && n.all isIdentChar
 /-- a unary operator of Nix -/
 def unOpOk (op : Text) : Bool := op == ['!'] || op == ['-']
 
+/-- the binary operators of Nix (`?` is a node kind of its own) -/
+def binOpOk (op : Text) : Bool :=
+  ["//", "++", "+", "-", "*", "/", "==", "!=", "<", "<=", ">", ">=", "&&", "||", "->"].any fun s => s.toList == op
+
+/-- the operators `_format_chained_binary` takes over when they stand on a line of their own -/
+def chainOp (op : Text) : Bool := op == ['/', '/'] || op == ['+', '+']
+
 /-- where an item sequence sits -/
 inductive Mode where
   | file | list | set | paren
@@ -297,6 +309,10 @@ def Cst.wf : Cst → Bool
   | .lam n c1 g1 c2 g2 b => lamNameOk n && c1.isEmpty && isGap g1 && c2.isEmpty && isGap g2 && b.wf
   -- `!e` / `-e`: whitespace only between operator and operand
   | .un op c g e => unOpOk op && c.isEmpty && isGap g && e.wf
+  -- binary operators: whitespace only around the operator; `//` and `++` with the operator on a line of
+  -- its own take the chain formatter `_format_chained_binary`, which is not modelled
+  | .bin l c1 g1 op c2 g2 r =>
+    l.wf && c1.isEmpty && isGap g1 && binOpOk op && !(chainOp op && containsNL g1) && c2.isEmpty && isGap g2 && r.wf
 /-- `closeGap`: the whitespace after the last item (in front of the closing token / the end of the
     file) -/
 def Items.wf : Items → Mode → Text → Bool
@@ -329,6 +345,9 @@ def Cst.modelled : Cst → Bool
       isGap g2 && isGap g3 && d.modelled
   | .lam n c1 g1 c2 g2 b => lamNameOk n && gcOk c1 g1 && isGap g1 && c2.isEmpty && isGap g2 && b.modelled
   | .un op c g e => unOpOk op && gcOk c g && isGap g && e.modelled
+  | .bin l c1 g1 op c2 g2 r =>
+    l.modelled && c1.isEmpty && isGap g1 && binOpOk op && !(chainOp op && containsNL g1) && c2.isEmpty && isGap g2 &&
+      r.modelled
 def Items.modelled : Items → Mode → Text → Bool
   | .nil, _, _ => true
   | .cmt g t rest, m, cg =>
